@@ -37,6 +37,135 @@ def strip_comments(src):
     return pat.sub(repl, src)
 
 
+CONTROL = re.compile(r"\b(for|while|if|else)\b")
+
+
+def _skip_parens(s, i):
+    """s[i] == '(' -> index just after the matching ')'"""
+    depth = 0
+    for j in range(i, len(s)):
+        if s[j] == "(":
+            depth += 1
+        elif s[j] == ")":
+            depth -= 1
+            if depth == 0:
+                return j + 1
+    return len(s)
+
+
+def _statement_end(s, i):
+    """index just after the statement that starts at s[i] (i at its first non-blank character)"""
+    while i < len(s) and s[i] == " ":
+        i += 1
+    if i >= len(s):
+        return i
+    if s[i] == "{":
+        depth = 0
+        for j in range(i, len(s)):
+            if s[j] == "{":
+                depth += 1
+            elif s[j] == "}":
+                depth -= 1
+                if depth == 0:
+                    return j + 1
+        return len(s)
+    m = CONTROL.match(s, i)
+    if m:
+        kw = m.group(1)
+        j = m.end()
+        while j < len(s) and s[j] == " ":
+            j += 1
+        if kw != "else":
+            if j < len(s) and s[j] == "(":
+                j = _skip_parens(s, j)
+            end = _statement_end(s, j)
+            # an `if` statement owns a following `else`
+            if kw == "if":
+                k = end
+                while k < len(s) and s[k] == " ":
+                    k += 1
+                if s.startswith("else", k) and not (s[k + 4:k + 5].isalnum() or s[k + 4:k + 5] == "_"):
+                    return _statement_end(s, k)
+            return end
+        return _statement_end(s, j)
+    depth = 0
+    for j in range(i, len(s)):
+        c = s[j]
+        if c in "([{":
+            depth += 1
+        elif c in ")]}":
+            depth -= 1
+        elif c == ";" and depth == 0:
+            return j + 1
+    return len(s)
+
+
+def add_braces(s):
+    """every body of for / while / if / else becomes a braced block (`else if` chains are left as they are)"""
+    out = []
+    i = 0
+    while True:
+        m = CONTROL.search(s, i)
+        if not m:
+            out.append(s[i:])
+            break
+        kw = m.group(1)
+        j = m.end()
+        while j < len(s) and s[j] == " ":
+            j += 1
+        if kw != "else":
+            if j >= len(s) or s[j] != "(":
+                out.append(s[i:m.end()])
+                i = m.end()
+                continue
+            j = _skip_parens(s, j)
+        out.append(s[i:j])
+        k = j
+        while k < len(s) and s[k] == " ":
+            k += 1
+        if k >= len(s) or s[k] in "{;" or (kw == "else" and s.startswith("if", k) and not s[k + 2:k + 3].isalnum()):
+            i = j
+            continue
+        if kw == "while" and s[k] == ";":
+            i = j
+            continue
+        end = _statement_end(s, k)
+        body = add_braces(s[k:end])
+        out.append(" { " + body.strip() + " }")
+        i = end
+    return "".join(out)
+
+
+def canonical(src):
+    """Formatting-insensitive form of a C++ source text.  Behaviour-preserving rewrites that map to the same text:
+    comments, whitespace and line breaks (also inside method chains), `#pragma` lines, `NULL`/`nullptr`/`0` for pointers
+    is NOT attempted beyond NULL/nullptr, `i++` / `++i` / `i += 1` as a statement or loop increment, `.noalias()`,
+    `typedef A B` / `using B = A`, braces around single-statement bodies of for / while / if / else, a loop condition
+    written `bound > i` instead of `i < bound`, `x == false` / `!x`, redundant parentheses around a single identifier."""
+    s = strip_comments(src)
+    s = re.sub(r"^[ \t]*#[ \t]*pragma[^\n]*$", " ", s, flags=re.M)
+    s = re.sub(r"\s+", " ", s)
+    s = re.sub(r"\bnullptr\b", "NULL", s)
+    s = re.sub(r" \.(?=[A-Za-z_])", ".", s)
+    s = s.replace(".noalias()", "")
+    s = re.sub(r"\b([A-Za-z_]\w*)\+\+(?= ?[);,])", r"++\1", s)
+    s = re.sub(r"\b([A-Za-z_]\w*)--(?= ?[);,])", r"--\1", s)
+    s = re.sub(r"\b([A-Za-z_]\w*) \+= 1(?= ?[);,])", r"++\1", s)
+    s = re.sub(r"\b([A-Za-z_]\w*) -= 1(?= ?[);,])", r"--\1", s)
+    s = re.sub(r"\btypedef ([^;{}]+?) (\w+);", r"using \2 = \1;", s)
+    s = re.sub(r"\b(\w+(?:\[\w+\])?) == false\b", r"!\1", s)
+    s = re.sub(r"\b(\w+(?:\[\w+\])?) == true\b", r"\1", s)
+    # `for (T i = a; bound > i; …)`  ->  `for (T i = a; i < bound; …)`
+    s = re.sub(r"(for \([^;()]*?\b(\w+) = [^;]*; )([^;<>=!&|]+?) (>=|>) \2;",
+               lambda m: "%s%s %s %s;" % (m.group(1), m.group(2), "<" if m.group(4) == ">" else "<=", m.group(3).strip()), s)
+    # redundant parentheses around one identifier / literal (not a call, not a control header, not a cast target)
+    s = re.sub(r"(?<=[-+*/%=,(<>!&|?:\[] )\((\w+)\)(?! ?[\w(])", r"\1", s)
+    s = re.sub(r"(?<=[(\[])\((\w+)\)(?! ?[\w(])", r"\1", s)
+    s = add_braces(s)
+    s = re.sub(r"\s+", " ", s)
+    return s
+
+
 class Source:
     def __init__(self, repo):
         self.repo = repo
@@ -50,13 +179,9 @@ class Source:
             raise TranslateError("cannot read %s: %s" % (rel, ex))
 
     def norm(self, rel):
-        """comments stripped, every whitespace run collapsed to one blank"""
+        """canonical text of a header (see `canonical`): what every anchor is matched against"""
         if rel not in self.cache:
-            s = strip_comments(self.raw(rel))
-            s = re.sub(r"\s+", " ", s)
-            # a method chain broken over several lines: `x() .leftCols(..) .rightCols(..)` -> no blank before the dot
-            s = re.sub(r" \.(?=[A-Za-z_])", ".", s)
-            self.cache[rel] = s
+            self.cache[rel] = canonical(self.raw(rel))
         return self.cache[rel]
 
     def find(self, rel, pattern, what, start=0, flags=0):
